@@ -2,6 +2,7 @@
 calculus, trusted (T-rules), reviewed-safe, or a listed known finding — otherwise a VIOLATION."""
 import json
 import os
+import re
 from collections import Counter, OrderedDict
 
 from analysis import cg as CG
@@ -196,6 +197,20 @@ def regex_statics_in(f, body):
     return out
 
 
+def coarse_desc(cls, desc):
+    """what a key keeps of a site's description: the operation (callee / assert kind) and which side failed, not the operand
+    expressions - renaming a local or hoisting a sub-expression does not make a reviewed or known site a new one; how many
+    such sites a function has is what is compared (key + count).  Explicit panics keep their message."""
+    if cls == "S5":
+        return desc
+    m = re.match(r"^([A-Za-z_][\w:]*)\(", desc)
+    op = m.group(1) if m else desc.split("(")[0]
+    part = re.search(r" (#[a-z+0-9!<>= ()&*._-]+)$", desc)
+    if cls == "S5":
+        return desc
+    return op + ((" " + part.group(1)) if part else "")
+
+
 def run_scope(chk, scope, roots, floor_roots, floor_bodies, floor_sinks, reviewed_file, trust_caret=True, extra_known_roots=(), invariants=None):
     f = F.load()
     g, ip = shared(f, invariants)
@@ -314,10 +329,12 @@ def run_scope(chk, scope, roots, floor_roots, floor_bodies, floor_sinks, reviewe
             if fin in seen_final:
                 continue
             seen_final.add(fin)
-            key = "%s|%s|%s" % (F.short_name(rec["origin"]), rec["cls"], rec["desc"])
+            fine = "%s|%s|%s" % (F.short_name(rec["origin"]), rec["cls"], rec["desc"])
+            key = "%s|%s|%s" % (F.short_name(rec["origin"]), rec["cls"], coarse_desc(rec["cls"], rec["desc"]))
             if fin != F.short_name(rec["origin"]):
                 key += "|in=" + fin
-            chk.finding(key, rule="R-PANIC/%s" % rec["cls"], where="%s:%s" % (rec["file"], rec["line"]), fn=F.short_name(rec["origin"]),
+                fine += "|in=" + fin
+            chk.finding(key, detail=fine, rule="R-PANIC/%s" % rec["cls"], where="%s:%s" % (rec["file"], rec["line"]), fn=F.short_name(rec["origin"]),
                         what=rec["what"], why="not discharged by D1-D8, not trusted (T1,T2,T5), not lifted to a caller that proves it",
                         path=" <- ".join(F.short_name(x) for x in chain[:6]), undischarged_in=fin)
     chk.floor("R-PANIC", "%s sinks classified" % scope, n_sinks, floor_sinks)
